@@ -5658,6 +5658,9 @@ class PyCdlib:
 
         # Every name has to be free and addable before the first one is added.
         self._check_new_paths(symlink_path, joliet_path, udf_symlink_path)
+        if udf_target is not None:
+            # So does the target; this raises if it cannot be recorded.
+            udfmod.symlink_to_bytes(udf_target)
 
         # Checks complete, we can go on to make the symlink.
 
